@@ -60,6 +60,18 @@ def _do(gb, fresh_builder, op, rng, n, raw_keys):
     v = np.array([rng.choice([np.nan, 1.0, 2.0, 3.0]) for _ in range(n)])
     m = None if rng.random() < 0.5 else np.array([rng.random() < 0.6 for _ in range(n)])
     fresh = fresh_builder()
+    if op in ("reduce", "transform", "size"):
+        # reductions also see value dtypes without an in-band null and slice / positional masks
+        r = rng.random()
+        if r < 0.5:
+            dt = rng.choice(["int32", "uint8", "bool", "int64", "float32"])
+            v = np.array([rng.choice([1, 2, 3, 5]) for _ in range(n)]).astype(dt)
+        r = rng.random()
+        if r < 0.2 and n >= 2:
+            k = rng.randrange(1, n)
+            m = slice(k, None) if rng.random() < 0.6 else slice(None, k)
+        elif r < 0.3:
+            m = np.array(sorted(rng.sample(range(n), rng.randrange(1, n + 1))), dtype=np.int64)   # (sorted, no repeats)
     if op == "reduce":
         f = rng.choice(["sum", "min", "last", "count", "mean", "first", "max"])
         return _equal(_try(getattr(gb, f), v, mask=m), _try(getattr(fresh, f), v, mask=m)), gb
@@ -72,7 +84,10 @@ def _do(gb, fresh_builder, op, rng, n, raw_keys):
         f, k = rng.choice([("head", 1), ("head", 2), ("tail", 1), ("tail", 2), ("nth", 0), ("nth", 1), ("nth", -1)])
         return _equal(_try(getattr(gb, f), v, k, keep_input_index=True), _try(getattr(fresh, f), v, k, keep_input_index=True)), gb
     if op == "cumroll":
-        f = rng.choice(["cumsum", "cummax", "rolling_sum", "rolling_max", "shift", "diff", "cumcount"])
+        f = rng.choice(["cumsum", "cummax", "rolling_sum", "rolling_max", "shift", "diff", "cumcount", "nearby"])
+        if f == "nearby":
+            w = np.arange(n, dtype=float)
+            return _equal(_try(gb.group_nearby_members, w, 1.0), _try(fresh.group_nearby_members, w, 1.0)), gb
         if f == "cumcount":
             return _equal(_try(gb.cumcount, mask=m), _try(fresh.cumcount, mask=m)), gb
         kw = {"window": 2} if f in ("rolling_sum", "rolling_max", "shift", "diff") else {}
